@@ -22,3 +22,25 @@ package dns
 //@   nopanic
 //@   ensures ulabel ==> result0 == nfc(idnaU(domain)) && (result1 == nil) == idnaUok(domain)
 //@   ensures !ulabel ==> result0 == idnaA(domain) && (result1 == nil) == idnaAok(domain)
+
+// ---- C05: the DNSSEC-aware resolver as a function of the query name (assumed for the duration of one discovery) ----
+//@ uninterp func ckAD(r ExtResolver, name string) bool
+//@ uninterp func ckName(r ExtResolver, name string) string
+//@ uninterp func ckErr(r ExtResolver, name string) error
+//@ uninterp func cnAD(r ExtResolver, name string) bool
+//@ uninterp func cnErr(r ExtResolver, name string) error
+//@ uninterp func tlsaAD(r ExtResolver, name string) bool
+//@ uninterp func tlsaRecs(r ExtResolver, name string) []TLSA
+//@ uninterp func tlsaErr(r ExtResolver, name string) error
+//@ func (ExtResolver).CheckCNAMEAD
+//@   prop C05
+//@   trusted
+//@   ensures ad == ckAD(e, host) && rname == ckName(e, host) && err == ckErr(e, host)
+//@ func (ExtResolver).AuthLookupCNAME
+//@   prop C05
+//@   trusted
+//@   ensures ad == cnAD(e, host) && err == cnErr(e, host)
+//@ func (ExtResolver).AuthLookupTLSA
+//@   prop C05
+//@   trusted
+//@   ensures ad == tlsaAD(e, domain) && recs == tlsaRecs(e, domain) && err == tlsaErr(e, domain)
